@@ -43,7 +43,7 @@ _BOOL_CALLS = {"isclose", "allclose", "isin", "in1d", "isnan", "isfinite", "isin
                "startswith", "endswith", "array_equal", "logical_and", "logical_or", "logical_not", "equal", "not_equal", "less",
                "greater", "less_equal", "greater_equal", "callable", "issubset", "issuperset", "isdisjoint", "bool", "isdigit",
                "isalpha", "exists", "positions_are_unchanged", "cell_is_orthorhombic"}
-_WRAP_CALLS = {"array", "asarray", "list", "tuple", "set", "sorted", "reversed"}
+_WRAP_CALLS = {"array", "asarray", "list", "tuple", "set", "sorted", "reversed", "diag", "diagonal", "ravel", "flatten"}
 
 
 def boolness(fn, e, depth=4, bound=None):
